@@ -25,6 +25,9 @@ const (
 	findLeadMeta  = "glob-limits-leading-meta"   // fixed f17b9c0
 	findSearchCnt = "search-count-shortcut"      // fixed 941d09b
 	findCountLim  = "count-shortcut-ignores-limit" // fixed 5131212
+	findNaN       = "nan-field-matches-everything"     // fixed 397446d
+	findCurOver   = "count-shortcut-cursor-overflow"   // fixed 75824dd
+	findDotted    = "dotted-field-lookup-stops-early"  // fixed 964544a (listed under C01)
 )
 
 const big = "1000000" // an explicit LIMIT no generated collection reaches (the default limit is 100)
@@ -371,7 +374,7 @@ func probe(t *testing.T, c *ev.Collector, id string, fails func() string) {
 func TestC12_Probes(t *testing.T) {
 	c := ev.New("C12", "probes", "exploration")
 	t.Cleanup(c.Flush)
-	c.Rule("deterministic regression probes, one per finding of this property: the repaired ones (glob-limits-leading-meta, search-count-shortcut, count-shortcut-ignores-limit) must pass; the suspected ones (glob-limits-0xff, where-comparand-lowercased) are reported under their id, or as KNOWN-FINDING once listed")
+	c.Rule("deterministic regression probes, one per finding of this property: the repaired ones (glob-limits-leading-meta, search-count-shortcut, count-shortcut-ignores-limit) must pass, as must nan-field-matches-everything, count-shortcut-cursor-overflow and dotted-field-lookup-stops-early (found by code readers, repaired); the suspected ones (glob-limits-0xff, where-comparand-lowercased) are reported under their id, or as KNOWN-FINDING once listed")
 	runProbes(t, c)
 }
 
